@@ -17,6 +17,10 @@ ExpectedUnMove(P, m, all) ==
       P.c,
       IF all THEN P.e ELSE (IF isEp THEN P.e ELSE NoSq) >>
 
-\* Pred(Q) restricted to one candidate: <<P, m>> is a predecessor of Q
-IsPredecessor(P, m, Q) == IsLegalMove(P, m) /\ SamePlace(Play(P, m), Q)
+\* RevMoveGen works on positions in the FIDE convention (what readFEN returns): an ep square is present
+\* only if an en-passant capture is legal.  Pred(Q) restricted to one candidate <<P, m>>:
+IsPredecessor(P, m, Q) == IsLegalMove(P, m) /\ SamePlace(Fixup(Play(P, m)), Q)
+Normalised(p) == p.e = FideEp(p)
+\* an ep square can only stem from a double push: the pawn's origin square must be empty now
+EpPlausible(p) == p.e = NoSq \/ p.b[IF p.w THEN p.e + 8 ELSE p.e - 8] = EMPTY
 =============================================================================
